@@ -35,7 +35,8 @@ CONSTANTS MaxFrames,    \* frames pushed through one reused compressor
           Levels,       \* subset of {"U", "F"}
           Frags,        \* read fragmentations of the source (only recorded in the program)
           Dev_F5,
-          Dev_LitRaw
+          Dev_LitRaw,
+          Dev_HashOnSetSource   \* the hasher is reset where the source is installed instead of where a frame begins
 
 VARIABLES phase,      \* "idle" | "blocks" | "done"
           level,
@@ -45,22 +46,27 @@ VARIABLES phase,      \* "idle" | "blocks" | "done"
                       \* graph distinguishes how a state was reached: one program per pair of consecutive classes)
           encHuf,     \* 0 = none, k > 0 = table built for block k of this frame
           decHuf,     \* the table a decoder of the emitted bytes holds
-          trailer     \* TRUE once the checksum of exactly the input has been appended
-vars == <<phase, level, frame, nfull, blocks, encHuf, decHuf, trailer>>
+          trailer,    \* TRUE once the checksum of exactly the input has been appended
+          hashClean   \* the hasher held nothing but this frame's input when the frame began
+vars == <<phase, level, frame, nfull, blocks, encHuf, decHuf, trailer, hashClean>>
 
 B == 131072
+Cont == 99          \* "fragmentation" value that stands for: no new source, the installed one is continued
 Classes == {"rle", "fewlits", "huf", "nohuf", "hufraw"}
 Tails == {"none", "short"}       \* input ends exactly at a block boundary | with a partial block
 
 Init == /\ phase = "idle" /\ level = "F" /\ frame = 0 /\ nfull = 0 /\ blocks = <<>>
-        /\ encHuf = 0 /\ decHuf = 0 /\ trailer = FALSE
+        /\ encHuf = 0 /\ decHuf = 0 /\ trailer = FALSE /\ hashClean = TRUE
 
-\* compress(): reset of the matcher, of the Huffman belief and of the hasher, then the header
+\* compress(): reset of the matcher, of the Huffman belief and of the hasher, then the header.
+\* The input of the frame comes from a source installed for it (fr in Frags: set_source, with a read fragmentation) or,
+\* fr = Cont, from the source that is already there (compress() called again after e.g. Take::set_limit on source_mut()).
 BeginFrame(lv, fr) ==
     /\ phase \in {"idle", "done"} /\ frame < MaxFrames
     /\ phase' = "blocks" /\ level' = lv /\ frame' = frame + 1 /\ nfull' = 0 /\ blocks' = <<>>
     /\ encHuf' = 0 /\ decHuf' = 0 /\ trailer' = FALSE
-    /\ fr \in Frags
+    /\ (fr \in Frags \/ (fr = Cont /\ frame > 0))
+    /\ hashClean' = (IF Dev_HashOnSetSource THEN fr # Cont ELSE TRUE)
 
 Emit(b) == blocks' = Append(blocks, b)
 BlockNo == Len(blocks) + 1
@@ -72,8 +78,8 @@ RawBlock(last) ==
     /\ Emit([kind |-> "raw", d |-> IF last THEN 1 ELSE B, lit |-> "none", last |-> last, cls |-> "any"])
     /\ nfull' = IF last THEN nfull ELSE nfull + 1
     /\ phase' = IF last THEN "done" ELSE "blocks"
-    /\ trailer' = last
-    /\ UNCHANGED <<level, frame, encHuf, decHuf>>
+    /\ trailer' = (last /\ hashClean)
+    /\ UNCHANGED <<level, frame, encHuf, decHuf, hashClean>>
 
 \* ---- level Fastest ------------------------------------------------------------------
 \* the literals decision of compress_block for content class cls: <<literals type, belief after compress_block>>
@@ -102,17 +108,17 @@ FastBlock(cls, choice, fallback, last) ==
                     /\ decHuf' = (IF choice[1] = "new" THEN choice[2] ELSE decHuf)
     /\ nfull' = IF last THEN nfull ELSE nfull + 1
     /\ phase' = IF last THEN "done" ELSE "blocks"
-    /\ trailer' = last
-    /\ UNCHANGED <<level, frame>>
+    /\ trailer' = (last /\ hashClean)
+    /\ UNCHANGED <<level, frame, hashClean>>
 
 \* the source is exhausted exactly at a block boundary (or is empty): an empty raw last block
 EmptyLast ==
     /\ phase = "blocks"
     /\ Emit([kind |-> "raw", d |-> 0, lit |-> "none", last |-> TRUE, cls |-> "empty"])
-    /\ phase' = "done" /\ trailer' = TRUE
-    /\ UNCHANGED <<level, frame, nfull, encHuf, decHuf>>
+    /\ phase' = "done" /\ trailer' = hashClean
+    /\ UNCHANGED <<level, frame, nfull, encHuf, decHuf, hashClean>>
 
-Next == \/ \E lv \in Levels, fr \in Frags : BeginFrame(lv, fr)
+Next == \/ \E lv \in Levels, fr \in Frags \cup {Cont} : BeginFrame(lv, fr)
         \/ \E last \in BOOLEAN : RawBlock(last)
         \/ \E cls \in Classes, lit \in {"none", "raw", "new", "treeless"}, t \in 0..(MaxBlocks + 1),
               fb \in BOOLEAN, last \in BOOLEAN : FastBlock(cls, <<lit, t>>, fb, last)
